@@ -47,7 +47,9 @@ TRUSTED = [
     "Falcon header access (`req.get_header`, repeated-header folding) and falcon.testing are exercised, not modelled",
 ]
 RULE = (
-    "ordered lists of length <= 4 over {zstd,gzip,identity,br,deflate,junk} with duplicates, case variants, ;q= / ;x=y "
+    "ordered lists of length <= 4 over {zstd,gzip,identity,br,deflate,junk} plus unknown tokens that embed a coding name "
+    "(x-gzip, gzipped, not-zstd, zstd-dict, identityx, names inside parameters; systematic sweep: coding under one header, "
+    "embedding token under the other) with duplicates, case variants, ;q= / ;x=y "
     "parameters, SP/HTAB padding and empty items, for both headers (each may also be absent) x server encode sets "
     "{none,{gzip},{zstd,gzip}} x {unary, init, producer continuation}; K additionally: all list pairs of length <= 3 "
     "(thorough: exhaustive, 67k pairs x 3 sets) at function level and random Unicode strings for the parser. Distinct by "
@@ -69,6 +71,11 @@ MANIFEST = {
 
 CT = {"Content-Type": "application/vnd.apache.arrow.stream"}
 TOKENS = ["zstd", "gzip", "identity", "br", "deflate", "junk"]
+# unknown tokens that *embed* a coding name (as prefix / suffix / infix, or only inside a parameter): a header is a list of
+# tokens, so none of these offers the embedded coding — but any shortcut over the raw header string (substring / prefix /
+# regex search) thinks it does.
+EMBED = ["x-gzip", "gzipped", "gzip2", "pack200-gzip", "xgzipx", "not-zstd", "zstd-dict", "zstdx", "xzstd", "zstdgzip",
+         "identityx", "x-identity", "non-identity", "br;gzip", "br;q=zstd", "junk;x=identity", "deflate; gzip=1", "g zip", "zs td"]
 NAMES = ("zstd", "gzip", "identity")
 SERVER_SETS = {"none": (), "gzip": ("gzip",), "both": ("zstd", "gzip")}
 
@@ -129,8 +136,26 @@ def gen_header(rng: Any) -> str | None:
     if r < 0.16:
         return rng.choice(["", " ", ",", "*", "*;q=0.1", "gzip;q=0, *"])
     n = rng.choice([1, 1, 2, 2, 3, 3, 4])
-    toks = [rng.choice(TOKENS) for _ in range(n)]
+    toks = [rng.choice(EMBED) if rng.random() < 0.2 else rng.choice(TOKENS) for _ in range(n)]
     return render(rng, toks, fancy=rng.random() < 0.7)
+
+
+def embed_pairs() -> list[tuple[str | None, str | None]]:
+    """Systematic sweep of the embedding dimension: a coding offered under one header while the other header carries only
+    unknown tokens that contain its name (and the mirror image, and both padded with other tokens)."""
+    out: list[tuple[str | None, str | None]] = []
+    for name in NAMES:
+        for t in EMBED:
+            if name not in t.replace(" ", ""):
+                continue
+            for good in (name, name.upper(), f"br, {name}", f"{name};q=0.5, junk"):
+                for bad in (t, f"{t}, br", f"junk, {t.upper()}"):
+                    out.append((bad, good))   # (Accept-Encoding, X-VGI-Accept-Encoding)
+                    out.append((good, bad))
+            out.append((t, t))
+            out.append((t, None))
+            out.append((None, t))
+    return out
 
 
 EXOTIC = [" ", "\t", "\n", "\r", "\x0b", "\x0c", "\x1c", "\x1f", "\x85", "\xa0", " ", " ", " ", "　", "​",
@@ -617,6 +642,11 @@ def run(ctx: Any) -> None:
             triples.append((rng.choice(list(SERVER_SETS)), rng.choice(base_lists), rng.choice(base_lists)))
     for _ in range(ctx.budget(6000, 120000)):
         triples.append((rng.choice(list(SERVER_SETS)), gen_header(rng), gen_header(rng)))
+    emb = embed_pairs()
+    for ae, xae in emb:
+        for sset in SERVER_SETS:
+            triples.append((sset, ae, xae))
+    ctx.note("embedded_name_pairs", len(emb))
     if ctx.driver is not None:
         for i in range(0, len(triples), 20000):
             k_pick(ctx, triples[i : i + 20000])
@@ -629,11 +659,19 @@ def run(ctx: Any) -> None:
         ("identity, gzip", None), ("gzip, identity", None), ("identity", "zstd"), ("gzip", "identity"), ("br", "junk"), ("gzip;q=0", None),
         ("deflate, gzip, br, zstd", "zstd, gzip"), ("GZIP", None), ("gzip", "ZSTD;q=1"), ("", ""), ("*", None), ("br", "zstd"),
         ("zstd", "br"), ("gzip , zstd", " zstd\t"), ("gzip", "zstd, gzip"), ("zstd, gzip", "gzip"), ("junk, zstd", "junk"),
+        # a coding negotiated through the VGI header only, while Accept-Encoding merely *contains* its name in another token
+        ("x-gzip, br", "gzip"), ("zstd-dict, br", "zstd"), ("pack200-gzip", "br, gzip, zstd"), ("gzipped", "gzip"), ("not-zstd", "zstd"),
+        ("gzip", "x-gzip"), ("br;q=gzip", "gzip"), ("non-identity, gzip", "zstd"), ("zstd", "x-identity, gzip"),
     ]
     for ae, xae in corpus:
         for sset in SERVER_SETS:
             for path in ("unary", "stream"):
                 check_case(ctx, apps, sset, path, ae, xae)
+    emb_http = list(emb) if thorough else rng.sample(emb, min(len(emb), 150))
+    for i, (ae, xae) in enumerate(emb_http):
+        check_case(ctx, apps, rng.choice(["gzip", "both"]), "unary" if (thorough or i % 4) else "stream", ae, xae)
+        if thorough:
+            check_case(ctx, apps, "both", "stream", ae, xae)
     n_u, n_p = ctx.budget(900, 30000), ctx.budget(150, 4000)
     for i in range(n_u):
         check_case(ctx, apps, rng.choice(list(SERVER_SETS)), "unary", gen_header(rng), gen_header(rng))
